@@ -1656,6 +1656,37 @@ class BDD(dd._abc.BDD[_Ref]):
         @param x, y:
             variable name or level
         """
+        # disable reordering requests while swapping,
+        # otherwise `find_or_add` below could raise
+        # `_NeedsReordering` in the middle of the swap
+        last_len = self._last_len
+        self._last_len = None
+        try:
+            return self._swap(x, y, all_levels)
+        finally:
+            self._last_len = last_len
+
+    def _swap(
+            self,
+            x:
+                _VariableName |
+                _Level,
+            y:
+                _VariableName |
+                _Level,
+            all_levels:
+                dict[
+                    _Level,
+                    set[_Ref]] |
+                None=None
+            ) -> tuple[
+                _Nat,
+                _Nat]:
+        """Permute adjacent variables `x` and `y`.
+
+        Called by `swap()`,
+        with reordering requests disabled.
+        """
         if all_levels is None:
             self.collect_garbage()
             all_levels = self._levels()
